@@ -278,3 +278,89 @@ Proof.
   - apply pc_only; auto; rewrite ?Hpc; try reflexivity. intros _. cbn.
     destruct (opform_facts W s op Hi) as [E [[Bm Ib]|(Bm & Ib & Wd & P)]]; rewrite Ib; split; auto.
 Qed.
+
+Lemma dw_range W s r : ginv W s r -> 0 <= dw s <= 4096.
+Proof. intros G. pose proof (g_dw _ _ _ G) as [D _]. pose proof (g_bound _ _ _ G). pose proof (U_nonneg s). lia. Qed.
+
+Lemma pb_head W s r : ginv W s r -> head_nb s -> pb s = 0.
+Proof.
+  intros G Hn. rewrite (pb_of W s r G). pose proof (g_wf _ _ _ G) as Wf. unfold wfr in Wf.
+  destruct (Z.eq_dec (f_pb r) 1) as [E|E]; [|lia]. apply (g_pbh _ _ _ G) in E.
+  unfold head_nb, head_bar in *. destruct (lst s); [contradiction|congruence].
+Qed.
+
+Lemma step_W_head W s t op owned x l : Inv W s -> pcs s t = W_head op owned -> lst s = x :: l ->
+  Inv W (set_pc s t
+    (if i_bar x then
+       if negb (owned =? IN_BARRIER) then W_upg op owned
+       else if negb (i_wt x =? 0) then DBW_pop RIdle (Z.land op ENQ_BITS)
+       else W_popb op
+     else
+       if (owned =? 0) && negb (i_wt x =? 0) && negb (nz (f_dq_state_has_sync_width_room (st s) W))
+       then W_unlock (Z.land op ENQ_BITS) 0
+       else if owned =? IN_BARRIER then W_xorib op
+       else if owned =? 0 then (if negb (i_wt x =? 0) then W_addw op else W_acq op)
+       else W_popn op owned)).
+Proof.
+  intros HI Hpc Hl. inv_pc HI t Hpc. destruct Hi as (E & D).
+  pose proof HI as (HW & (r & G) & T). pose proof (dw_range W s r G) as Dr.
+  assert (NB : forall d, 0 <= d <= 4096 -> d * INTERVAL <> IN_BARRIER) by (unfold INTERVAL, IN_BARRIER; intros; lia).
+  destruct (i_bar x) eqn:Eb.
+  - assert (Hb : head_bar s) by (unfold head_bar; rewrite Hl; exact Eb).
+    destruct (Z.eqb_spec owned IN_BARRIER) as [Eo|Eo]; cbn [negb].
+    + assert (Bm : bmode s = true).
+      { destruct D as [[Bm _]|(Bm & Ow & _)]; [exact Bm|]. exfalso. apply (NB (dw s) Dr). congruence. }
+      destruct (Z.eqb_spec (i_wt x) 0) as [Ew|Ew]; cbn [negb].
+      * apply pc_only; auto; rewrite ?Hpc; try reflexivity. intros _. cbn. auto.
+      * apply pc_only; auto; rewrite ?Hpc, ?E; try reflexivity. intros _. cbn. rewrite E.
+        repeat split; auto. unfold head_wt. rewrite Hl. exact Ew.
+    + apply pc_only; auto; rewrite ?Hpc; try reflexivity. intros _. cbn.
+      destruct D as [[_ Ow]|(Bm & Ow & P)]; [contradiction|]. repeat split; auto.
+  - assert (Hn : head_nb s) by (unfold head_nb; rewrite Hl; exact Eb).
+    pose proof (pb_head W s r G Hn) as P0.
+    destruct ((owned =? 0) && negb (i_wt x =? 0) && negb (nz (f_dq_state_has_sync_width_room (st s) W))) eqn:C.
+    + apply andb_true_iff in C as [C _]. apply andb_true_iff in C as [C _]. apply Z.eqb_eq in C. subst owned.
+      apply pc_only; auto; rewrite ?Hpc; try reflexivity. intros _. cbn. rewrite E.
+      destruct D as [[_ Ow]|(Bm & Ow & P)]; [unfold IN_BARRIER in Ow; discriminate|].
+      exists 0, 0. split; [unfold ENQUEUED, INTERVAL, IN_BARRIER; lia|]. split; [lia|]. right.
+      assert (dw s = 0) by (unfold INTERVAL in Ow; lia). repeat split; auto.
+    + destruct (Z.eqb_spec owned IN_BARRIER) as [Eo|Eo].
+      * apply pc_only; auto; rewrite ?Hpc; try reflexivity. intros _. cbn.
+        destruct D as [[Bm _]|(Bm & Ow & _)]; [auto|]. exfalso. apply (NB (dw s) Dr). congruence.
+      * destruct D as [[_ Ow]|(Bm & Ow & P)]; [contradiction|].
+        destruct (Z.eqb_spec owned 0) as [E0|E0].
+        -- assert (D0 : dw s = 0) by (unfold INTERVAL in Ow; lia).
+           destruct (Z.eqb_spec (i_wt x) 0) as [Ew|Ew]; cbn [negb].
+           ++ apply pc_only; auto; rewrite ?Hpc; try reflexivity. intros _. cbn. repeat split; auto.
+           ++ cbn [negb andb] in C. apply negb_false_iff in C.
+              destruct (room_bound W s r HW G C) as [_ Bd]. pose proof (U_nonneg s).
+              assert (0 <= (W - 1) * f_pb r) by (pose proof (g_wf _ _ _ G) as Wf; unfold wfr in Wf; nia).
+              apply pc_only; auto; rewrite ?Hpc; try reflexivity. intros _. cbn. repeat split; auto; try lia.
+              unfold head_wt. rewrite Hl. exact Ew.
+        -- apply pc_only; auto; rewrite ?Hpc; try reflexivity. intros _. cbn. repeat split; auto.
+           unfold INTERVAL in *. lia.
+Qed.
+
+Lemma step_W_next W s t op owned : Inv W s -> pcs s t = W_next op owned ->
+  Inv W (set_pc s t (if is_nil (lst s)
+                     then W_unlock (Z.lor (Z.land op ENQ_BITS)
+                                          (if owned =? IN_BARRIER then u64 (owned + u64 (W * INTERVAL)) else owned)) 1
+                     else W_head op owned)).
+Proof.
+  intros HI Hpc. inv_pc HI t Hpc. destruct Hi as (E & D).
+  pose proof HI as (HW & (r & G) & T). pose proof (dw_range W s r G) as Dr.
+  destruct (is_nil (lst s)).
+  - apply pc_only; auto; rewrite ?Hpc; try reflexivity. intros _. cbn. rewrite E.
+    destruct D as [[Bm Ow]|(Bm & Ow & P)].
+    + subst owned. rewrite Z.eqb_refl. rewrite (u64_id'' (W * INTERVAL)) by (unfold INTERVAL; lia).
+      rewrite u64_id'' by (unfold IN_BARRIER, INTERVAL; lia).
+      exists W, 1. split.
+      * replace (IN_BARRIER + W * INTERVAL) with ((8192 + W) * 2199023255552) by (unfold IN_BARRIER, INTERVAL; lia).
+        rewrite lor_enq_hi by lia. unfold IN_BARRIER, INTERVAL. lia.
+      * split; [lia|]. left. auto.
+    + destruct (Z.eqb_spec owned IN_BARRIER) as [Eo|Eo]; [exfalso; unfold IN_BARRIER, INTERVAL in *; lia|].
+      exists (dw s), 0. split.
+      * subst owned. unfold INTERVAL. rewrite lor_enq_hi by lia. unfold IN_BARRIER. lia.
+      * split; [lia|]. right. auto.
+  - apply pc_only; auto; rewrite ?Hpc; try reflexivity. intros _. cbn. auto.
+Qed.
